@@ -19,6 +19,8 @@ from prng import Rng
 ID = "C04"
 LEAN_MODULE = "RpycModel.Props.C04"
 NAMESPACE = "Rpyc.Props.C04"
+GEN = ["Brine.lean"]          # generated constant files this property depends on
+DRIVERS = ["drv_brine"]       # driver executables it pipes ops through
 TRUSTED = [
     "modelled, not verified: struct '!d' packing is bit-transparent; str(int)/int(bytes) grammar and the "
     "interpreter's digit limit; UTF-8 (strict / surrogatepass) of CPython equals the model's codec; "
